@@ -17,9 +17,11 @@ theorem exec_seq (defs : Defs) (rc : List TokenKind) (n : Nat) (a b : Prog) (s :
   rw [exec]
   cases exec defs rc n a s <;> rfl
 
-theorem forward_partial (input : List Char) (p : Frag.Program)
+/-- forward direction with the tree: no errors, and every node of the tree hands all its child nodes to
+its typed accessors (`goodT`) -/
+theorem forward_tree (input : List Char) (p : Frag.Program)
     (h : (PState.init input).kinds = p.render) :
-    ∃ r, parse input = .ok r ∧ r.errors = [] := by
+    ∃ r, parse input = .ok r ∧ r.errors = [] ∧ goodT r.tree = true := by
   -- fuel
   have hlen : p.render.length ≤ input.length := by rw [← h]; exact init_kinds_length input
   obtain ⟨k, hk⟩ : ∃ k, parseFuel input = k + 6 := ⟨parseFuel input - 6, by unfold parseFuel; omega⟩
@@ -28,9 +30,9 @@ theorem forward_partial (input : List Char) (p : Frag.Program)
   let s0 := PState.init input
   let s1 := s0.startNode .SourceFile
   have hi1 : Inv input s1 := PState.inv_startNode (PState.inv_init input) _
-  have habs : Abs input [] [(SyntaxKind.SourceFile, [])] s1 ⟨p.render, s1.flag, 0, s1.locals, [], false⟩ := by
-    refine ⟨hi1, h, rfl, rfl, (fun hc => by cases hc), ⟨Nat.zero_le _, rfl, ⟨[], rfl⟩⟩, CpAll.nil⟩
-  have hax := c_statement_list_top p s1.flag 0 s1.locals [] false (k + 3) hkb
+  have habs : Abs input [] [(SyntaxKind.SourceFile, [])] s1 ⟨p.render, s1.flag, 0, s1.locals, [], false, [], []⟩ := by
+    refine ⟨hi1, h, rfl, rfl, (fun hc => by cases hc), ⟨Nat.zero_le _, rfl, ⟨[], rfl⟩⟩, CpAll.nil, FR.base rfl rfl⟩
+  have hax := c_statement_list_top p s1.flag 0 s1.locals [] [] [] false (k + 3) hkb
   obtain ⟨s2, he2, habs2, herr2⟩ := sim Grammar.defs Tables.recoverTokens (k + 3) _ s1 _ _ habs hax
   -- look-ahead is `Eof`; the parent stack is the one `SourceFile` frame
   have hcur : s2.cur = .Eof := habs2.cur rfl
@@ -55,10 +57,21 @@ theorem forward_partial (input : List Char) (p : Frag.Program)
         (seq (ifAt [.Eof] nop (error "unexpected input at top level")) finishNode)) s1 = s2.finishNode := by
       rw [exec_seq, he2]; exact e34
     rw [exec_seq, e1]; simp only []; rw [e234, hfin]
-  refine ⟨{ tree := Tree.node .SourceFile s2.b.cur.reverse, errors := s2.errors.reverse, steps := s2.steps }, ?_, ?_⟩
+  refine ⟨{ tree := Tree.node .SourceFile s2.b.cur.reverse, errors := s2.errors.reverse, steps := s2.steps }, ?_, ?_, ?_⟩
   · unfold parse; rw [hrun]
   · show s2.errors.reverse = []
     rw [herr2]; rfl
+  · show goodT (Tree.node .SourceFile s2.b.cur.reverse) = true
+    obtain ⟨t1, t2⟩ := habs2.fr.top
+    simp only [goodT, Bool.and_eq_true]
+    refine ⟨?_, by rw [goodL_reverse]; exact t2⟩
+    rw [kindsOf_reverse, t1]; rfl
+
+theorem forward_partial (input : List Char) (p : Frag.Program)
+    (h : (PState.init input).kinds = p.render) :
+    ∃ r, parse input = .ok r ∧ r.errors = [] := by
+  obtain ⟨r, h1, h2, _⟩ := forward_tree input p h
+  exact ⟨r, h1, h2⟩
 
 end C04L
 end Tg
